@@ -262,6 +262,8 @@ func VerifC19_KRedef() {
 		"(defun f (a) 1)\n(f%ARGS%)\n(defun f (a b) 2)",
 		"(in-package 'p)\n(defun g (a) 1)\n(g%ARGS%)\n(in-package 'q)\n(defun g (a b) 2)",
 		"(defun f (a) 1)\n(f%ARGS%)\n(defun other (a b) 2)", // control: nothing redefined
+		"(defun f (a b) 1)\n(defun f (a) 2)\n(f%ARGS%)",     // the call comes after BOTH: it reaches the later definition
+		"(defmacro f (a b) 1)\n(defun f (a) 2)\n(f%ARGS%)",
 	}
 	ti := vConcInt(vndChoice("tmpl", len(tmpls)))
 	k := vndInt("k")
